@@ -88,7 +88,9 @@ class C01(Check):
         tx3 = reqs.mk_tx(rng, [reqs.signed_script(rng, 1, (True,), redeem),
                                b"\x00" + B.minimal_push(rng.nz_bytes(80)),
                                reqs.signed_script(rng, 2, (True, True), redeem)], nout=1)
-        self.txs = [tx1, tx2, tx3]
+        dup = B.minimal_push(redeem) + B.minimal_push(rng.nz_bytes(70)) + B.minimal_push(redeem)
+        tx4 = reqs.mk_tx(rng, [dup, b"\x52\x53\x52"], nout=1)
+        self.txs = [tx1, tx2, tx3, tx4]
         receipt = reqs.mk_receipt(rng, 90)
         proof = [rng.nz_bytes(33), rng.nz_bytes(7)]
         ws = rng.nz_bytes(71)
@@ -97,6 +99,8 @@ class C01(Check):
             for mode in ("legacy", "segwit"):
                 add("auth", path=p, mode=mode, tx=p, index=p, receipt=receipt.hex(),
                     proof=[n.hex() for n in proof], ws=ws.hex(), value=1 + p)
+        add("auth", path=0, mode="legacy", tx=3, index=1, receipt=receipt.hex(),
+            proof=[n.hex() for n in proof], ws=ws.hex(), value=3)
         for p in (2, 3, 4, 5):
             add("hash", path=p, hash=rng.bytes(32).hex(), v1=False)
         for p in (2, 5):
